@@ -39,8 +39,8 @@ slice header is (array, length) and its capacity is the size of the array.
 
 Arguments are the *normalised* ones (the normalisation is `Model/ListOps`' business and is proved there): indexes are naturals
 (a negative index panics before storage is touched, except inside a multi-index `Delete`, which the heap model covers);
-`subList c start stop` is `SubList(start, end)` after `end <= 0` has been turned into `Count + end`, so the stratum only sends
-`end >= 1`; `sort` assumes a list all of whose elements have the kind of element 0 (Go panics on a nil / bool / container first
+`subList c start stop` is `SubList(start, end)` after `end <= 0` has been turned into `Count + end` (the driver does that
+normalisation for the records of the stratum, which sends every sign of both arguments); `sort` assumes a list all of whose elements have the kind of element 0 (Go panics on a nil / bool / container first
 element and drops the elements of other kinds: `L.sort` models that, and the stratum does not sort lists that hold padding);
 `add` has no partial effect (with scalar elements `parseVal` cannot panic half way). An independent audit of this file against
 the Go source (a replay of `step` fuzzed against the library on a widened input domain) found exactly these two restrictions
